@@ -603,6 +603,27 @@ def cluster(kinds, layout='line', d=3.0, level='exposed', offset=(0, 0, 0)):
     return s.renumber_serials()
 
 
+class Skip(Exception):
+    """Raised by generators for inputs that are outside a scope (clash, tie); counted, never judged."""
+
+
+def interpart_clash(s, limit=2.05):
+    """Do two atoms of different chains come closer than a covalent bond (S-S contacts excepted)?"""
+    at = [a for a in s.atoms if a.chain != 'Z']
+    lim2 = int(limit * 1000) ** 2
+    for i in range(len(at)):
+        a = at[i]
+        for j in range(i + 1, len(at)):
+            b = at[j]
+            if a.chain == b.chain:
+                continue
+            if (a.x - b.x) ** 2 + (a.y - b.y) ** 2 + (a.z - b.z) ** 2 < lim2:
+                if a.element == 'S' and b.element == 'S':
+                    continue
+                return True
+    return False
+
+
 def cutoff_ties(s, cutoffs=(20.0, 15.0, 10.0, 6.0, 5.0, 4.5, 4.0, 3.85, 3.65, 3.5, 3.0, 2.85, 2.5, 2.0, 1.7, 1.5),
                 eps=1e-6, centers=None):
     """Tie guard: is any atom-atom distance within eps of a model cut-off?  (computed from the input alone)"""
